@@ -128,3 +128,77 @@ pub fn matches_tokens(ms: &MatchList) -> String {
     }
     s
 }
+
+/// IR node in prefix token form.
+pub fn node_tokens(n: &Node, out: &mut String) {
+    fn seq8(name: &str, v: &[u8], out: &mut String) {
+        write!(out, "{} {}", name, v.len()).unwrap();
+        for x in v {
+            write!(out, " {}", x).unwrap();
+        }
+    }
+    fn seq32(name: &str, v: &[u32], out: &mut String) {
+        write!(out, "{} {}", name, v.len()).unwrap();
+        for x in v {
+            write!(out, " {}", x).unwrap();
+        }
+    }
+    match n {
+        Node::Empty => out.push_str("Empty"),
+        Node::Goal => out.push_str("Goal"),
+        Node::Char { c } => write!(out, "Char {}", c).unwrap(),
+        Node::ByteSequence(v) => seq8("BSeq", v, out),
+        Node::ByteSet(v) => seq8("BSet", v, out),
+        Node::CharSet(v) => seq32("CSet", v, out),
+        Node::Cat(v) => {
+            write!(out, "Cat {}", v.len()).unwrap();
+            for x in v {
+                out.push(' ');
+                node_tokens(x, out);
+            }
+        }
+        Node::Alt(l, r) => {
+            out.push_str("Alt ");
+            node_tokens(l, out);
+            out.push(' ');
+            node_tokens(r, out);
+        }
+        Node::MatchAny => out.push_str("Any"),
+        Node::MatchAnyExceptLineTerminator => out.push_str("AnyNL"),
+        Node::Anchor { anchor_type, multiline } => write!(out, "Anchor {} {}", matches!(anchor_type, AnchorType::StartOfLine) as u8, b(*multiline)).unwrap(),
+        Node::WordBoundary { invert, unicode_icase } => write!(out, "WB {} {}", b(*invert), b(*unicode_icase)).unwrap(),
+        Node::CaptureGroup { id, contents, name } => {
+            write!(out, "CG {} {} ", id, match name { Some(s) => hex(s.as_bytes()), None => "-".into() }).unwrap();
+            node_tokens(contents, out);
+        }
+        Node::BackRef { group, icase } => write!(out, "BR {} {}", group, b(*icase)).unwrap(),
+        Node::Bracket(bc) => {
+            write!(out, "Brk {} {}", b(bc.invert), bc.cps.intervals().len()).unwrap();
+            for iv in bc.cps.intervals() {
+                let (lo, hi) = interval_bounds(*iv);
+                write!(out, " {} {}", lo, hi).unwrap();
+            }
+        }
+        Node::StringSet { alternatives, icase } => {
+            write!(out, "SS {} {}", b(*icase), alternatives.len()).unwrap();
+            for a in alternatives {
+                write!(out, " {}", a.len()).unwrap();
+                for c in a.iter() {
+                    write!(out, " {}", c).unwrap();
+                }
+            }
+        }
+        Node::LookaroundAssertion { negate, backwards, start_group, end_group, contents } => {
+            write!(out, "LA {} {} {} {} ", b(*negate), b(*backwards), start_group, end_group).unwrap();
+            node_tokens(contents, out);
+        }
+        Node::Loop { loopee, quant, enclosed_groups } => {
+            write!(out, "Loop {} {} {} {} {} ", quant.min, match quant.max { Some(m) => m.to_string(), None => "-".into() }, b(quant.greedy), enclosed_groups.start, enclosed_groups.end).unwrap();
+            node_tokens(loopee, out);
+        }
+        Node::Loop1CharBody { loopee, quant } => {
+            write!(out, "L1 {} {} {} ", quant.min, match quant.max { Some(m) => m.to_string(), None => "-".into() }, b(quant.greedy)).unwrap();
+            node_tokens(loopee, out);
+        }
+    }
+}
